@@ -1093,7 +1093,7 @@ def w6_cases(ctx, rng):
     for apdu in apdus:
         size = apdu - 6
         # access points without a device object: every single fault at every frame index
-        for devless in (["a"], ["b"], ["a", "b"]):
+        for devless in ((["a"], ["b"], ["a", "b"]) if (apdu == 50 or not ctx.quick) else (["a", "b"],)):
             for clen, slen in ((2 * size + 1, 2 * size + 1), (5, 3 * size - 4), (3 * size - 4, 5)):
                 for wa, wb in (((2, 2),) if ctx.quick else ((2, 2), (1, 4), (5, 3))):
                     out.append({"clen": clen, "slen": slen, "a": IMPL.stack(apdu, window=wa), "b": IMPL.stack(apdu, window=wb),
@@ -1151,8 +1151,8 @@ def run(ctx):
     ss = send_specs(ctx, rng)
     rs = recv_specs(ctx, rng)
     if ctx.quick:
-        ss = rng.sample(ss, 600)
-        rs = rng.sample(rs, 600)
+        ss = rng.sample(ss, 450)
+        rs = rng.sample(rs, 450)
     # thorough: the complete grids
     specs = []
     for kind, items in (("send", ss), ("recv", rs), ("stale", stale_specs(ctx))):
